@@ -195,6 +195,40 @@ def run(tier='quick'):
     _layout(prog, chk, Y3)
     # ---- Y4 dispatch ----------------------------------------------------------
     _dispatch(prog, chk, Y4, supported, enum)
+    # ---- Y5: what the loaders probe is what they open; what creators stamp is what detection maps back
+    from .. import callgraph, effects
+    from . import c16, c12
+    cg = callgraph.get(prog)
+    eff = effects.Effects(prog, cg)
+    Y5 = chk.rule('Y5', 'every loader (load_database, database_exists, the engine_library / engine_storage load '
+                        'functions) opens or attaches only a path whose existence it tested; each supported creator '
+                        'stamps the Information row(s) with the triple of its own class, which detect_schema maps '
+                        'back to its enumerator', floor=20)
+    roots = [f for f in prog.functions.values() if f.body is not None and not f.is_pattern and prog.in_repo(f.file)
+             and f.name in ('load_database', 'database_exists', 'load') and
+             (f.qualname or '').startswith('djinterop::engine::')]
+    if len(roots) < 3:
+        raise AnalysisBroken('Y5: loader entry points not found')
+    for f in roots:
+        chk.analysed(f)
+    c16.guarded_opens(prog, cg, eff, chk, Y5, roots)
+    fmap = schemas.factory_map(prog)
+    for en in supported:
+        cls = fmap.get(en)
+        if cls is None:
+            continue
+        ver = schemas.version_of_class(prog, cls)
+        tr, variant = _triple(en)
+        short = cls.split('::')[-1]
+        if ver == tr:
+            chk.ok(Y5, '%s: class constant %s is the triple detect_schema maps to %s' % (short, ver, en), '-')
+        else:
+            chk.violation(Y5, '%s|class constant' % en, '-',
+                          '%s declares schema_version %s (own or inherited); the enumerator %s stands for %s: a '
+                          'library created as %s is detected as another version after reopening' % (short, ver, en, tr, en))
+        for e in schemas.creation_trace(prog, cls):
+            if e.stmt.kind == 'insert' and (e.stmt.table or '').lower() == 'information':
+                c12._check_info_insert(prog, chk, Y5, cls, short, ver, e)
     return chk.finish(
         'Finite evaluation of the decision code read from the clang AST: detect_schema is evaluated for '
         'every (major, minor, patch) in a box built from all case labels and their neighbours (%d cells; '
